@@ -7,7 +7,8 @@ Record ecase := ECase {
   e_extra : list string;        (* hook invocations journaled in the traced run and not in the untraced one *)
   e_missing : list string;      (* ... and the other way round *)
   e_results_equal : bool; e_stdout_equal : bool; e_exc_equal : bool;
-  e_restored : bool; e_flushes : nat; e_flush_reached_program : bool
+  e_restored : bool; e_flushes : nat; e_flush_reached_program : bool;
+  e_residue : nat               (* frames left in CallTracer.traces after a workload whose calls have all finished *)
 }.
 
 Fixpoint prefix (p s : string) : bool :=
@@ -29,6 +30,7 @@ Definition kf_metaclass_hash_eq (e : string) : bool := prefix "MetaHash.__hash__
 Definition verdict_effects (c : ecase) : nat :=
   if negb (e_results_equal c && e_stdout_equal c && e_exc_equal c) then 2
   else if negb (e_restored c) || negb (Nat.eqb (e_flushes c) 1) || e_flush_reached_program c then 2
+  else if negb (Nat.eqb (e_residue c) 0) then 2
   else if negb (Nat.eqb (List.length (e_missing c)) 0) then 2
   else if negb (forallb (fun e => kf_lookup_getattr e || kf_metaclass_hash_eq e) (e_extra c)) then 2
   else match existsb kf_lookup_getattr (e_extra c), existsb kf_metaclass_hash_eq (e_extra c) with
